@@ -16,6 +16,7 @@ LEVEL_NOTE = 'Trusted: the nested-loop model and its key equality (taken from th
 RULE = ('random table pairs (0-8 rows/side quick, up to 40 thorough; key alphabets of 2-5 values so many-to-many is the norm; 0-3 key columns; '
         'keys among None/int/float/NaN objects of several identities/str/datetime mixed within a column), every lcols/rcols spelling and mode; '
         'non-trivial = both sides non-empty and (a duplicate key on each side or a NaN/None/mixed-type key); distinct = canonical hash of the case term')
+RULE_ALSO = '; added by the coverage audit and round 8: right operand as a plain dict / records; the result of a keyed join joined / anti-joined again on part of its keys'
 ASSUMPTIONS = ['bools are not used as keys (True == 1)', 'xor with zero key columns is not part of the conservation law',
                'result row order is not compared (multiset), column order is not compared',
                'the key cell of a joined row may be either side\'s representative (1 vs 1.0)']
